@@ -54,10 +54,11 @@ StepF(e, w) ==
       [] e.op = "ChanSet"      -> ChanSetF(w, a[1], a[2], a[3], a[4])
       [] e.op = "ChanShape"    -> RV(w, "ok", -1, <<1, Length(w.views[a[1]]), Capacity(w.views[a[1]])>>)
       [] e.op = "Drop"         -> DropF(w, a[1])
+      [] e.op = "ChannelLength"-> RC(w, "ok", ChanLen(a[1], a[2]))
 
 (* views an event operates on (for classification only) *)
 Operated(e) ==
-    CASE e.op \in {"Alloc"} -> {}
+    CASE e.op \in {"Alloc", "ChannelLength"} -> {}
       [] e.op \in {"Append", "Convert"} -> {e.args[1], e.args[2]}
       [] OTHER -> {e.args[1]}
 
@@ -78,10 +79,11 @@ Class(e, w, r) ==
     ELSE IF ~ResOK(e, r) THEN "res"
     ELSE IF Len(e.obs) # Len(r.w.views) THEN "self"
     ELSE IF \E v \in Operated(e) : v <= Len(e.obs) /\ e.obs[v] # Project(r.w)[v] THEN "self"
-    ELSE IF e.op = "Alloc" /\ e.obs[Len(e.obs)] # Project(r.w)[Len(e.obs)] THEN "self"
+    ELSE IF e.op = "Alloc" /\ Len(e.obs) > 0 /\ e.obs[Len(e.obs)] # Project(r.w)[Len(e.obs)] THEN "self"
     ELSE "other"
 ZeroShaped(e, w) ==
     IF e.op = "Alloc" THEN e.args[1] = 0 \/ e.args[3] = 0
+    ELSE IF e.op = "ChannelLength" THEN e.args[2] = 0
     ELSE \E v \in Operated(e) : v \in 1..Len(w.views) /\ (w.views[v].ch = 0 \/ w.views[v].cap = 0)
 ArgsValid(e, w) == \A v \in Operated(e) : v \in 1..Len(w.views)
 
